@@ -1808,6 +1808,8 @@ pub fn eval_ternary_equality(lhs: &Value, rhs: &Value) -> Option<bool> {
 
 ///
 fn eval_in_list(left: &Value, items: &[Value]) -> Value {
+  // an item that can not be tested (like null) leaves the result undetermined, unless a later item matches
+  let mut undetermined = false;
   for item in items {
     match item {
       inner @ Value::String(_)
@@ -1853,10 +1855,14 @@ fn eval_in_list(left: &Value, items: &[Value]) -> Value {
           return VALUE_TRUE;
         }
       }
-      _ => return value_null!(),
+      _ => undetermined = true,
     }
   }
-  VALUE_FALSE
+  if undetermined {
+    value_null!()
+  } else {
+    VALUE_FALSE
+  }
 }
 
 /// Checks if all elements from `list` are present in `items`.
